@@ -70,7 +70,7 @@ func verifH_C41_pipe_unary() {
 // Pipe: streams.
 //
 //verif:use ipc pipe handler
-//verif:bound one stream call through serveOne: producer, producer with header, exchange or dynamic method; init succeeds, fails, panics, returns nil or a non-state, parameters fail to bind, or the header fails to serialise; the state plays 0..2 (thorough: 3) turns each ANY of 12 outcomes (emit, log+emit, no emit, two emits, finish, error, panic, emit+finish, log without emit, log+error, emit+error, emit+panic); the client sends 0..3 inputs and may cancel at any of them (zero-row or data-shaped cancel)
+//verif:bound one stream call through serveOne: producer, producer with header, exchange or dynamic method; init succeeds, fails, panics, returns nil or a non-state, parameters fail to bind, or the header fails to serialise; the state plays 0..2 turns each ANY of 12 outcomes (emit, log+emit, no emit, two emits, finish, error, panic, emit+finish, log without emit, log+error, emit+error, emit+panic); the client sends 0..3 inputs and may cancel at any of them (zero-row or data-shaped cancel)
 func verifH_C41_pipe_stream() {
 	verifResetIPC()
 	verifResetHandler()
@@ -79,9 +79,6 @@ func verifH_C41_pipe_stream() {
 	init := verifChoice("init", 7)
 	verifParamsFail, verifHeaderFail = init == 5, init == 6
 	maxTurns := 2
-	if verifTier() == 1 {
-		maxTurns = 3
-	}
 	var turns []int
 	for i, n := 0, verifChoice("turns", maxTurns+1); i < n; i++ {
 		turns = append(turns, verifChoice("turn", verifNTurnKindsExt))
